@@ -1,4 +1,5 @@
 import OFCore.Lemmas.AddDivide
+import OFCore.Props.C05
 /-!
 # C03 — summing or dividing over time uses the exact sub-periods; period mismatches fail
 
@@ -590,5 +591,68 @@ theorem C03_store_irrelevant (val : Period → Int) (u : DUnit) (parg : Option P
 
 example : callWithOptions exampleVal true .day (some ⟨.month, ⟨2020, 1, 1⟩, 1⟩) none =
     callWithOptions exampleVal false .day (some ⟨.month, ⟨2020, 1, 1⟩, 1⟩) none := C03_store_irrelevant _ _ _ _
+
+/-! ## the period argument as the caller writes it, and `calculate_output` -/
+
+/-- A `Period` object reaches every entry point unchanged; an argument that is neither a period
+    nor text is refused by every entry point (and by `check_period_validity`). -/
+theorem C03_argument_kinds (val : Period → Int) (store : Bool) (u : DUnit) (p : Period)
+    (opts : Option (List Opt)) :
+    calcPlainArg val store u (.period p) = calcPlain val store u p ∧
+    calcAddArg val store u (.period p) = calcAdd val store u p ∧
+    calcDivideArg val store u (.period p) = calcDivide val store u p ∧
+    callWithArg val store u (.period p) opts = callWithOptions val store u (some p) opts ∧
+    (∃ e, calcPlainArg val store u .invalid = .error e) ∧ (∃ e, calcAddArg val store u .invalid = .error e) ∧
+    (∃ e, calcDivideArg val store u .invalid = .error e) ∧ (∃ e, callWithArg val store u .invalid opts = .error e) ∧
+    (∃ e, checkPeriodValidity .invalid = .error e) ∧
+    checkPeriodValidity (.period p) = .ok () ∧ ∀ cs, checkPeriodValidity (.text cs) = .ok () :=
+  ⟨rfl, rfl, rfl, rfl, ⟨_, rfl⟩, ⟨_, rfl⟩, ⟨_, rfl⟩, ⟨_, rfl⟩, ⟨_, rfl⟩, rfl, fun _ => rfl⟩
+
+example : calcAddArg exampleVal true .month (.period ⟨.year, ⟨2020, 1, 1⟩, 1⟩) = .ok 114760 := by decide +kernel
+
+/-- The period written as text (`str(period)`, parsed back by `periods.period` at the entry
+    point): for every period aligned to its own unit with four-digit (ISO) years the request is
+    the request for the period itself — except that twelve months print as one year, so a
+    twelve-month period is served as the year period with the same start and the same days. -/
+theorem C03_text_argument (val : Period → Int) (store : Bool) (u : DUnit) (p : Period)
+    (opts : Option (List Opt)) (hwf : p.WF) (hal : OwnAligned p) (hdom : InTextDomain p) :
+    resolveArg (.text p.text) = .ok (canon p) ∧
+    calcPlainArg val store u (.text p.text) = calcPlain val store u (canon p) ∧
+    calcAddArg val store u (.text p.text) = calcAdd val store u (canon p) ∧
+    calcDivideArg val store u (.text p.text) = calcDivide val store u (canon p) ∧
+    callWithArg val store u (.text p.text) opts = callWithOptions val store u (some (canon p)) opts ∧
+    (¬ (p.unit = .month ∧ p.size = 12) → canon p = p) ∧
+    ((p.unit = .month ∧ p.size = 12) → canon p = ⟨.year, p.start, 1⟩ ∧ (canon p).lo = p.lo ∧ (canon p).hi = p.hi) := by
+  have h : resolveArg (.text p.text) = .ok (canon p) := parse_text p hwf hal hdom
+  refine ⟨h, ?_, ?_, ?_, ?_, ?_, ?_⟩
+  · unfold calcPlainArg; rw [h]; rfl
+  · unfold calcAddArg; rw [h]; rfl
+  · unfold calcDivideArg; rw [h]; rfl
+  · unfold callWithArg; rw [h]
+  · intro hn; unfold canon; rw [if_neg hn]
+  · intro hy
+    unfold canon; rw [if_pos hy]
+    refine ⟨rfl, rfl, ?_⟩
+    simp only [Period.hi, hy.1, hy.2, Int.mul_one]
+
+/-- ISO-year boundaries: the week that begins on Monday 30 December 2019 prints as `2020-W01`
+    and is served as that very week; an int is the calendar year -/
+example : (Period.mk .week ⟨2019, 12, 30⟩ 1).text = "2020-W01".toList ∧
+    resolveArg (.text "2020-W01".toList) = .ok ⟨.week, ⟨2019, 12, 30⟩, 1⟩ ∧
+    resolveArg (.text "2020-W53-7".toList) = .ok ⟨.weekday, ⟨2021, 1, 3⟩, 1⟩ ∧
+    resolveArg (.text (intText 2020)) = .ok ⟨.year, ⟨2020, 1, 1⟩, 1⟩ ∧
+    calcAddArg exampleVal true .weekday (.text "week:2020-W01:2".toList) =
+      calcAdd exampleVal true .weekday ⟨.week, ⟨2019, 12, 30⟩, 2⟩ := by decide +kernel
+
+/-- `Simulation.calculate_output` is the plain, ADD or DIVIDE request according to what the variable
+    declares, so everything above transfers to it. -/
+theorem C03_calculate_output_dispatch (val : Period → Int) (store : Bool) (u : DUnit) (a : PArg) :
+    calcOutput val store u none a = (calcPlainArg val store u a).map (fun (v : Int) => (v : Rat)) ∧
+    calcOutput val store u (some .add) a = (calcAddArg val store u a).map (fun (v : Int) => (v : Rat)) ∧
+    calcOutput val store u (some .divide) a = calcDivideArg val store u a :=
+  ⟨rfl, rfl, rfl⟩
+
+example : calcOutput exampleVal true .month (some .add) (.period ⟨.year, ⟨2020, 1, 1⟩, 1⟩) = .ok 114760 := by
+  decide +kernel
 
 end OFCore
